@@ -494,8 +494,8 @@ fn run_transport(
                         #[cfg(metrics_verif)]
                         verif_drive_end(verif_port, verif_token(token), done, wbuf, msgs);
                         if done {
+                            // The client is counted out once, when it is actually removed below.
                             clients_to_remove.push(*token);
-                            state.decrement_clients();
                             continue;
                         }
 
@@ -543,7 +543,6 @@ fn run_transport(
                         verif_drive_end(verif_port, verif_token(token), done, wbuf, msgs);
                         if done {
                             clients_to_remove.push(*token);
-                            state.decrement_clients();
                         }
                     }
 
